@@ -922,20 +922,22 @@ func (a *Agent) gatherCandidatesSrflx(ctx context.Context, urls []*stun.URI, net
 
 			return
 		}
-		// If the agent closes midway through the connection
-		// we end it early to prevent close delay.
-		cancelCtx, cancelFunc := context.WithCancel(ctx)
-		defer cancelFunc()
+		// If the agent closes or the gathering is canceled (Restart) midway through
+		// the exchange we end it early instead of waiting for the STUN timeout.
+		exchangeDone := make(chan struct{})
 		go func() {
 			select {
-			case <-cancelCtx.Done():
+			case <-exchangeDone:
 				return
+			case <-ctx.Done():
+				_ = conn.Close()
 			case <-a.loop.Done():
 				_ = conn.Close()
 			}
 		}()
 
 		xorAddr, err := stunx.GetXORMappedAddr(conn, serverAddr, a.stunGatherTimeout)
+		close(exchangeDone)
 		if err != nil {
 			closeConnAndLog(conn, a.log, "failed to get server reflexive address %s %s: %v", network, url, err)
 
